@@ -65,6 +65,18 @@ func init() {
 		HarnessDef{ID: "H16.2", Spec: HarnessSpec{Name: "vH_C14_packet_write_dataack", Pkg: "pkg/protocol", LoopBound: 8, TimeoutS: 120, Par: 4, Redirects: pkW},
 			What: "padding maxima of the traffic pattern are what the emitted UDP data/ack datagram exhibits (= C14 H14.2b)", Bounds: "as C14 H14.2b", Outside: pkWNote},
 	)
+	pkP := map[string]string{"github.com/enfein/mieru/v3/pkg/metrics.RegisterMetric": "vStubRegisterMetric"}
+	pkPLB := map[string]int{"vPacketParse": 25}
+	pkPNote := "ideal AEAD (one genuine 2-byte payload seal in the table; Open succeeds iff nonce, length and every byte match); metadata fields arbitrary (the sender holds a valid credential); low-entropy data types covered separately"
+	for _, pr := range []string{"C04", "C10", "C05"} {
+		reg(pr,
+			HarnessDef{ID: "H4.2a", Spec: HarnessSpec{Name: "vH_C04_packet_parse_dataack", Pkg: "pkg/protocol", LoopBound: 64, LoopBounds: pkPLB, TimeoutS: 240, Par: 8, Redirects: pkP},
+				What:   "real PacketUnderlay.parseDataAckSegment on EVERY datagram body of length 0..21 with EVERY authenticated metadata (prefix/payload/suffix lengths, type, ids arbitrary), client and server: no panic; accepted => prefix + payload(+16) + suffix is exactly the body, the payload is the genuine plaintext sealed under this datagram's nonce and the ciphertext sits at the offset the metadata names; truncated, extended or shifted bodies are dropped",
+				Bounds: "body 0..21 bytes (case split), genuine payload 2 bytes", Outside: pkPNote},
+			HarnessDef{ID: "H4.2b", Spec: HarnessSpec{Name: "vH_C04_packet_parse_session", Pkg: "pkg/protocol", LoopBound: 64, LoopBounds: pkPLB, TimeoutS: 240, Par: 8, Redirects: pkP},
+				What: "same for PacketUnderlay.parseSessionSegment (open/close request/response with piggybacked payload)", Bounds: "as H4.2a", Outside: pkPNote},
+		)
+	}
 	lb17 := map[string]int{"pdepGeneric": 64, "pextGeneric": 64, "vRefPdep": 64, "vRefPext": 64, "vRefEncodeChunk": 64, "vH_C17_rotation": 300}
 	mx := func(name, id, what string, to int) HarnessDef {
 		return HarnessDef{ID: id, Spec: HarnessSpec{Name: name, Pkg: "pkg/mathext", LoopBound: 64, LoopBounds: lb17, TimeoutS: to}, What: what,
